@@ -107,3 +107,12 @@ pub fn sym_game_nocache(below: usize) -> Game {
 }
 pub fn sym_bools64() -> [bool; 64] { rep64!(nd::bool()) }
 pub fn sym_codes64() -> [u8; 64] { rep64!(sym_code()) }
+
+/// a game whose state stack holds `len` entries (1..=512); entries below the top are uninitialised
+/// memory that is never read by the callers this is used for (only `len()` matters there)
+pub fn game_with_len(len: usize) -> Game {
+    let mut g = game_side_only(true);
+    unsafe { g.state.set_len(len); }
+    g
+}
+pub fn grow_by_one(g: &mut Game) { let n = g.state.len(); unsafe { g.state.set_len(n + 1); } }
